@@ -149,6 +149,7 @@ def stepV (v : Variant) (st : State) (args : List String) : State × String :=
         if resolutionsWf r.2 then s!"{toHex r.1} {dumpRefs r.2}" else s!"{toHex r.1} x"
       | none => "n/a"
     (st, s!"{model}\t{spec}")
+  | "termchain" :: _ => (st, "skip\t1")   -- reused context vs a context built from scratch, judged on the implementation
   | ["mtstr", c, _how, _hp, h] =>
     -- a ManagedText re-initialised from the text `h`: `Str()` = the cached resolution, or the raw text when the
     -- cache is empty; `Raw()` = the text. Nothing of the previous content `_hp` may show.
